@@ -82,7 +82,7 @@ def main():
     m = {'version': 1,
          'setup_cmd': 'mkdir -p build evidence replay && python3-vt -c "import z3; print(z3.get_version_string())"',
          'hooks': {'guard': 'SPLINETRAJECTORY_VERIF', 'enable': 'no source hooks: checks compile /repo/include/*.hpp unmodified with `#define double ::symx::Sym` (symx/pre.hpp)',
-                   'baseline_off_cmd': 'cd /repo && cmake -G Ninja -B _build >/dev/null && cmake --build _build && ctest --test-dir _build -j8 --timeout 900',
+                   'baseline_off_cmd': '/verif/tools/run_suite.sh /repo',
                    'source_commits': [], 'add_only': True},
          'engines': [{'name': 'symx', 'path': 'enc/ symx/ harness/ props/', 'serves_properties': sorted(CLAIMED),
                       'kind_free_text': 'solver-based checking: symbolic execution of the real C++ headers by scalar substitution, SMT (z3) over the recorded DAG, native replay of counterexamples'}],
